@@ -308,9 +308,24 @@ MANIFEST = dict(
     technique='contract-based deductive verification: monitor invariant with quantified per-tag view + inner loop invariant, z3',
 )
 LEVEL = 'proof'
-TRUSTED = ['finite-sum frame lemma SUMW', 'builtin contract of list.sort(reverse=True)', 'A-LOCK (Condition.wait releases and re-acquires)']
+TRUSTED = ['finite-sum frame lemma SUMW: proved in lean/FiniteSums.lean (SUMW_frame); trusted: the by-inspection correspondence SMT instance <-> Lean statement', 'builtin contract of list.sort(reverse=True)', 'A-LOCK (Condition.wait releases and re-acquires)']
 ASSUMPTIONS = TRUSTED
 EXPLANATION = 'sliding window semaphore monitor'
+
+
+def extra_obligations(eng, R, tier):
+    """The finite-sum lemmas (SUMW frame lemma) are proved in Lean 4 / Mathlib (/verif/lean); the thorough tier re-checks them."""
+    info = {'finite_sum_lemmas': {'statement_in_smt': 'background axioms / assumed instances in this module',
+                                  'proved_in': ['FiniteSums.lean'], 'theorems': {'FiniteSums.lean': ['SUMW_frame']},
+                                  'status': 'proved in Lean (re-checked by the thorough tier); the correspondence between the '
+                                            'SMT statement and the Lean statement is by inspection (dict = finite key set + value function)'}}
+    if tier == 'thorough':
+        from pyvc.lean import check_lean
+        r = check_lean(['FiniteSums.lean'], {'FiniteSums.lean': ['SUMW_frame']})
+        info['finite_sum_lemmas']['recheck'] = r
+        if r['status'] == 'failed':
+            info['checker_errors'] = ['lean re-check of the finite-sum lemmas failed: ' + '; '.join(r['detail'])[:600]]
+    return info
 
 
 def bounded_checks(tier, seed):
